@@ -24,6 +24,7 @@ CONTROL_MIN = 1e-2            # the non-tree control must deviate by at least th
 TOL_LIMIT = 1e-6              # clauses 3, 4: times N
 TOL_ADAMS = 2e-5              # same, for the entry points that integrate with vode/adams at its default rtol = 1e-6
 ADAMS = ("SIS_pair_based", "SIS_heterogeneous_pairwise")   # source: analytic.py uses _my_odeint_ for these two systems
+S_FLOOR = 0.01                # clause 4: comparison stops where S(t) <= S_FLOOR*N (singular point of the closures)
 TOL_FINAL = 1e-6              # clause 5, on R/N
 
 SG = {}                       # run name -> SpecGraph (filled before the pool forks)
@@ -650,7 +651,14 @@ def c4_task(task):
         elif S1.shape != S2.shape:
             rows.append((mode, seeds, rho, float("inf"), None, False))
         else:
-            rows.append((mode, seeds, rho, float(np.abs(S1 - S2).max()), None, bool(S1[-1] < S1[0] - 1e-6)))
+            # the closures divide by [S]; once S reaches 0 in finite time the integrators run through a singular
+            # point and neither output solves the model any more: compare on the prefix of the report grid where
+            # both S(t) > S_FLOOR * N
+            ok = (S1 > S_FLOOR * n) & (S2 > S_FLOOR * n)
+            m = len(S1) if ok.all() else int(np.argmin(ok))
+            dev = float(np.abs(S1[:m] - S2[:m]).max()) if m else 0.0
+            rows.append((mode, seeds, rho, dev, ({"_": "singular"} if m < len(S1) else None) if dev <= 0 or m == len(S1) else ({"_": "singular-dev"}),
+                         bool(m > 1 and S1[m - 1] < S1[0] - 1e-6)))
     return {"family": x, "n": n, "key": key, "rows": rows}
 
 
